@@ -145,6 +145,7 @@ pub fn spec_c10() -> PropSpec {
         nt_rule: "",
         engine: "seq",
         runner: None,
+        decode: None,
     }
 }
 
@@ -232,5 +233,6 @@ pub fn spec_c11() -> PropSpec {
         nt_rule: "",
         engine: "seq",
         runner: None,
+        decode: None,
     }
 }
